@@ -7,16 +7,18 @@ import subprocess
 import sys
 from pathlib import Path
 
+import os
 V = Path(__file__).resolve().parent.parent
+REPO = os.environ.get("VERIF_REPO", "/repo")   # a second lane: a /verif worktree + a /repo worktree, VERIF_REPO set
 tier = "quick"
 args = sys.argv[1:]
 if "--tier" in args:
     i = args.index("--tier")
     tier = args[i + 1]
     del args[i:i + 2]
-dirty = subprocess.run("git -C /repo status --porcelain --untracked-files=no", shell=True, capture_output=True, text=True).stdout.strip()
+dirty = subprocess.run("git -C %s status --porcelain --untracked-files=no" % REPO, shell=True, capture_output=True, text=True).stdout.strip()
 if dirty:
-    sys.exit("/repo has uncommitted changes:\n" + dirty)
+    sys.exit(REPO + " has uncommitted changes:\n" + dirty)
 seeds = sorted(p for p in (V / "seeded").iterdir() if p.is_dir() and (not args or p.name in args))
 resf = V / "seeded" / "RESULTS.json"
 results = json.loads(resf.read_text()) if resf.exists() else {}
@@ -26,10 +28,10 @@ for s in seeds:
         print("%-34s (neutralised by a later repair; skipped)" % s.name)
         continue
     pids = meta.get("checks") or [meta["property"]]
-    ok = subprocess.run(["git", "-C", "/repo", "apply", str(s / "patch.diff")]).returncode == 0
+    ok = subprocess.run(["git", "-C", REPO, "apply", str(s / "patch.diff")]).returncode == 0
     if not ok:
         print("%-34s PATCH DOES NOT APPLY (code moved on?)" % s.name)
-        subprocess.run("git -C /repo checkout -- .", shell=True)
+        subprocess.run("git -C %s checkout -- ." % REPO, shell=True)
         continue
     try:
         for pid in pids:
@@ -50,4 +52,4 @@ for s in seeds:
             results.setdefault(s.name, {})[pid + ":" + tier] = dict(rc=r.returncode, no_input=("no-failing-input-found" in (lines[0] if lines else "")), kind=kind, shown=shown)
             resf.write_text(json.dumps(results, indent=1, sort_keys=True))
     finally:
-        subprocess.run("git -C /repo checkout -- . && git -C /repo clean -fdq -- memdb server resp util raftexample", shell=True)
+        subprocess.run("git -C %s checkout -- . && git -C %s clean -fdq -- memdb server resp util raftexample" % (REPO, REPO), shell=True)
